@@ -414,6 +414,37 @@ fn main() {
         let msg = match r { Ok(Ok(())) => None, Ok(Err(m)) => Some(m), Err(_) => Some("PANIC".to_string()) };
         if let Some(m) = msg { nfail += 1; if failures.len() < 5 { failures.push(format!("{} {}", e2, m.chars().take(300).collect::<String>())); } }
       }
+      // typed values as a client sends them: every xsd type tag with texts at and beyond the machine integer ranges; the decoded value must be
+      // the FEEL value of the same text (the tags name the lexical space, not a machine type), an invalid text must be an error, never a panic
+      let typed: Vec<(&str, &str, Option<&str>)> = vec![
+        ("xsd:integer", "0", Some("0")), ("xsd:integer", "-7", Some("-7")), ("xsd:integer", "9223372036854775807", Some("9223372036854775807")),
+        ("xsd:integer", "9223372036854775808", Some("9223372036854775808")), ("xsd:integer", "-9223372036854775809", Some("-9223372036854775809")),
+        ("xsd:integer", "18446744073709551616", Some("18446744073709551616")), ("xsd:integer", "12345678901234567890123", Some("12345678901234567890123")),
+        ("xsd:integer", "1234567890123456789012345678901234", Some("1234567890123456789012345678901234")), ("xsd:integer", "abc", None), ("xsd:integer", "", None),
+        ("xsd:decimal", "0.1", Some("0.1")), ("xsd:decimal", "-12345678901234567890.123456789", Some("-12345678901234567890.123456789")), ("xsd:decimal", "1e", None),
+        ("xsd:double", "1.5", Some("1.5")), ("xsd:double", "1E+3", Some("1000")), ("xsd:double", "-2.5E-3", Some("-0.0025")), ("xsd:double", "x", None),
+        ("xsd:boolean", "true", Some("true")), ("xsd:boolean", "false", Some("false")), ("xsd:boolean", "1", Some("true")), ("xsd:boolean", "0", Some("false")), ("xsd:boolean", "yes", None),
+        ("xsd:string", "a\"b", Some("\"a\\\"b\"")), ("xsd:date", "2021-03-04", Some("date(\"2021-03-04\")")), ("xsd:date", "2021-02-30", None),
+        ("xsd:time", "10:20:30.132147786Z", Some("time(\"10:20:30.132147786Z\")")), ("xsd:time", "25:00:00", None),
+        ("xsd:dateTime", "2021-03-04T10:20:30+01:00", Some("date and time(\"2021-03-04T10:20:30+01:00\")")), ("xsd:dateTime", "2021-03-04", None),
+        ("xsd:duration", "P1Y2M", Some("duration(\"P1Y2M\")")), ("xsd:duration", "-PT1.5S", Some("duration(\"-PT1.5S\")")), ("xsd:duration", "PT300M", Some("duration(\"PT5H\")")), ("xsd:duration", "P", None),
+      ];
+      for (tag, text, expected) in typed {
+        cases += 1;
+        let json = format!("{{\"simple\":{{\"type\":{},\"text\":{},\"isNil\":false}}}}", serde_json::to_string(tag).unwrap(), serde_json::to_string(text).unwrap());
+        let want = expected.map(|e| lit(e));
+        let r = std::panic::catch_unwind(std::panic::AssertUnwindSafe(|| -> std::result::Result<(), String> {
+          let d: dto::ValueDto = serde_json::from_str(&json).map_err(|x| format!("request does not parse: {}", x))?;
+          match (dto::WrappedValue::try_from(&d), &want) {
+            (Ok(w), Some(v)) => if norm(v) == norm(&w.0) { Ok(()) } else { Err(format!("decoded as {}", w.0)) },
+            (Ok(w), None) => Err(format!("an invalid text was accepted as {}", w.0)),
+            (Err(x), Some(_)) => Err(format!("a valid text was rejected: {}", x)),
+            (Err(_), None) => Ok(()),
+          }
+        }));
+        let msg = match r { Ok(Ok(())) => None, Ok(Err(m)) => Some(m), Err(_) => Some("PANIC".to_string()) };
+        if let Some(m) = msg { nfail += 1; if failures.len() < 5 { failures.push(format!("{} {} {}", tag, text, m.chars().take(300).collect::<String>())); } }
+      }
       println!("tck cases={} failures={}", cases, nfail);
       for f in failures { println!("FAIL {}", f); }
     }
